@@ -7,7 +7,7 @@ import Driver.Util
     pre: <subs>            what the loop's owner does before loop() (elt: inside the ThreadInitCallback)
     thread <k>: <subs>     program of thread k
     follow <k k k …>       which thread performs the next visible event
-    schedule …             (raw detsched schedule: meaningless for the model, ignored)
+    schedule … | spurious  (raw detsched schedule, spurious wake-ups: meaningless for the model, ignored)
     subs: q<id> r<id> quit p<id> startLoop destroy
 
   One `follow` entry `k` = thread `k` is stepped until one of its steps has a visible action (`out ≠ none`),
@@ -69,7 +69,7 @@ def parseLine (c : Cfg) (line : String) : Option Cfg :=
       (rest.foldr (fun x acc => match parseNat x, acc with
         | some n, some l => some (n :: l)
         | _, _ => none) (some [])).map fun l => { c with follow := l }
-    else if w = "schedule" then some c
+    else if w = "schedule" ∨ w = "spurious" then some c
     else
       match line.splitOn ":" with
       | [head, body] =>
